@@ -332,7 +332,9 @@ def api_cases(draw):
         "W": draw(st.integers(1, 10)), "H": draw(st.integers(1, 6)),
         "cols": draw(st.integers(1, 40)), "rows": draw(st.integers(1, 24)),
         "fill": draw(st.sampled_from(FILLS)),
-        "api": draw(st.sampled_from(["render", "iter", "iter_set_padding"])),
+        "api": draw(st.sampled_from(["render", "iter", "iter_set_padding", "iter_resized"])),
+        # iter_resized: the iterator's own render size (set with set_render_size) differs from the renderable's
+        "W0": draw(st.integers(1, 10)), "H0": draw(st.integers(1, 6)), "size_first": draw(st.booleans()),
         "frames": draw(st.integers(2, 4)), "advance": draw(st.integers(0, 5)),
     }
     if draw(st.booleans()):
@@ -373,6 +375,17 @@ def check_api(c, rec):
             r = H["new"]("grid", W, Hh, c["frames"], 40)
             if api == "iter":
                 it = RenderIterator(r, None, padding, loops=2, cache=c["advance"] % 2 == 0)
+            elif api == "iter_resized":
+                from term_image.geometry import Size as _Size
+
+                r = H["new"]("grid", c.get("W0", 1), c.get("H0", 1), c["frames"], 40)
+                it = RenderIterator(r, None, P.ExactPadding(1, 0, 0, 1), loops=2, cache=c["advance"] % 2 == 0)
+                if c.get("size_first", True):
+                    it.set_render_size(_Size(W, Hh))
+                    it.set_padding(padding)
+                else:
+                    it.set_padding(padding)
+                    it.set_render_size(_Size(W, Hh))
             else:
                 it = RenderIterator(r, None, P.ExactPadding(1, 0, 0, 1), loops=2, cache=c["advance"] % 2 == 0)
                 next(it)
